@@ -19,6 +19,7 @@ import (
 
 	"verif/internal/harness"
 	"verif/internal/pbfgen"
+	"verif/internal/pbfscan"
 )
 
 func TestMain(m *testing.M) { harness.Main(m, "C02") }
@@ -229,6 +230,9 @@ func run(c Case) error {
 			return harness.Failf("C02/modified-after-return", "object %d changed after it was returned:\n was %s\n now %s", i, snaps[i], now)
 		}
 	}
+	if d := pbfgen.AppendIndependence(got); d != "" {
+		return harness.Failf("C02/results-share-memory", "%s", d)
+	}
 	return nil
 }
 
@@ -371,6 +375,70 @@ func TestOversizedBlocks(t *testing.T) {
 				sizes = append(sizes, n)
 			}
 			return map[string]any{"block_sizes": sizes, "procs": c.Procs, "scan_every": c.ScanEvery, "scan_delay": c.ScanDelay, "gomaxprocs": c.GoMaxProcs, "headerless": c.Headerless}
+		},
+		Inflight: true,
+	})
+}
+
+// ---------------------------------------------------------------- two scanners alive at once
+
+type TwoCase struct {
+	A, B           *pbfgen.File
+	ProcsA, ProcsB int
+	StallBlock     int  // A's reader stalls one byte short of the end of this data block (modulo) until B has been scanned completely
+	OneP           bool // GOMAXPROCS=1 and no garbage collection during the case (per-P caches and pools then hand memory from one scanner to the next deterministically)
+	HeaderlessB    bool // B starts at its first data block (a scan resumed while the earlier scanner is still open)
+}
+
+func runTwo(c TwoCase) (string, bool) {
+	encA, encB := c.A.Encode(), c.B.Encode()
+	wantA, _ := c.A.Expected()
+	wantB, _ := c.B.Expected()
+	stall := len(encA.Data)
+	if n := len(encA.Blocks); n > 0 {
+		stall = encA.Blocks[c.StallBlock%n].End - 1
+	}
+	dataB := encB.Data
+	if c.HeaderlessB {
+		dataB = dataB[encB.Header.End:]
+	}
+	return pbfscan.Two(encA.Data, wantA, c.ProcsA, stall, dataB, wantB, c.ProcsB, c.OneP)
+}
+
+func TestTwoScanners(t *testing.T) {
+	harness.Run(t, harness.Spec[TwoCase]{
+		Name: "two-scanners", N: 120,
+		Rule: "two scanners alive in one process: scanner A's reader stalls one byte short of the end of a drawn data block, scanner B (another file, own decoder count, half of the time started at its first data block like a resumed scan) is then scanned to its end, A is released and finishes; half of the cases run with GOMAXPROCS=1 and the collector off, where per-P caches and pools pass memory from one scanner to the next deterministically; oracle = both sequences equal their models; non-trivial = every case",
+		Gen: func(t *rapid.T) TwoCase {
+			return TwoCase{
+				A:           pbfgen.GenFile(t, pbfgen.Opt{MinBlocks: 1, MaxBlocks: 6, NonEmpty: true, Small: true}),
+				B:           pbfgen.GenFile(t, pbfgen.Opt{MinBlocks: 1, MaxBlocks: 6, NonEmpty: true, Small: true}),
+				ProcsA:      rapid.SampledFrom([]int{1, 1, 2, 4, 11}).Draw(t, "procsA"),
+				ProcsB:      rapid.SampledFrom([]int{1, 1, 2, 4, 11}).Draw(t, "procsB"),
+				StallBlock:  rapid.IntRange(0, 5).Draw(t, "stallBlock"),
+				OneP:        rapid.Bool().Draw(t, "oneP"),
+				HeaderlessB: rapid.Bool().Draw(t, "headerlessB"),
+			}
+		},
+		Check: func(c TwoCase) error {
+			d, hang := runTwo(c)
+			if hang {
+				return harness.Failf("C02/hang", "%s", d)
+			}
+			if d != "" {
+				return harness.Failf("C02/two-scanners", "%s", d)
+			}
+			return nil
+		},
+		Classify: func(c TwoCase) (bool, []string) {
+			var cl []string
+			if c.OneP {
+				cl = append(cl, "single-P-no-gc")
+			}
+			return true, cl
+		},
+		Describe: func(c TwoCase) any {
+			return map[string]any{"blocks_a": len(c.A.Blocks), "blocks_b": len(c.B.Blocks), "procs_a": c.ProcsA, "procs_b": c.ProcsB, "stall_block": c.StallBlock, "one_p": c.OneP, "headerless_b": c.HeaderlessB}
 		},
 		Inflight: true,
 	})
